@@ -174,6 +174,8 @@ func (bs *blockState) applyContractX(spec *FuncSpec, key string, args []Val, ins
 	e := bs.e
 	if spec.Trusted {
 		e.usedTrusted[spec.Header] = true
+	} else if e.usedCallees != nil {
+		e.usedCallees[spec.Key] = true
 	}
 	short := key[strings.Index(key, ".")+1:]
 	e.callOrd[short]++
